@@ -54,6 +54,11 @@ CLAIMED = {
             'subtraction/division delegate to addition/multiplication of the negated / sign-normalised reciprocal operand; normalize() canonicalises. '
             'Canonical form on all values, comparisons between opposite infinities and overflow are not decided.',
             'The special-value fast paths (x*0, x/inf) are accepted when guarded by an explicit test of the scalar.', 'DESIGN.md 4 C15'),
+    'C07': ('CFG path counting (exactly-one watch re-registration on every path), decision tables of new_clause / enqueue / simplify, must-pass and ordering rules over sat_core::propagate / next / check, pattern facts of analyze and record',
+            'Static: a clause never loses or duplicates its watch on any path; conflicting propagation restores the unvisited watchers; learnt clauses are stored with two watches and justify their propagation; '
+            'every conflict site of sat_core::propagate fails at root and learns otherwise; theories are all checked before success; next() and check() have the required shape; the root simplification table of '
+            'new_clause; the classification of reason literals in analyze. Soundness of first-UIP learning on arbitrary trails is not decided.',
+            'The structural facts are written for the MiniSat-style design the code follows; local names are resolved by role.', 'DESIGN.md 4 C07'),
 }
 
 NOT_YET = {}
